@@ -19,6 +19,7 @@ open State
 open Str
 open String
 open Tables
+open TyParse
 open Types
 open Visitor
 
